@@ -145,7 +145,7 @@ func runC14(c *eng.Ctx) {
 		ok := true
 		nenc := 0
 		for _, n := range g.Nodes {
-			if len(g.CallsAt(n, func(o types.Object, _ *ast.CallExpr) bool { return o != nil && o.Name() == "Encode" })) > 0 {
+			if len(g.CallsAt(n, func(o types.Object, _ *ast.CallExpr) bool { return o != nil && nameOf(o) == "Encode" })) > 0 {
 				nenc++
 				if !g.OnlyVia(n, isEcho, nil) {
 					ok = false
@@ -286,7 +286,7 @@ func runC14(c *eng.Ctx) {
 	if f := r5.NeedFunc(pkgAdm + ".ResponseFromFile"); f != nil {
 		info := f.Pkg.TypesInfo
 		g := p.GraphOf(f)
-		checkErrSites(r5, f, func(o types.Object) bool { return o.Name() == "ReadFile" }, nil, nil)
+		checkErrSites(r5, f, func(o types.Object) bool { return nameOf(o) == "ReadFile" }, nil, nil)
 		okEmpty := false
 		for _, n := range g.Nodes {
 			ret, isR := n.Node.(*ast.ReturnStmt)
@@ -301,7 +301,7 @@ func runC14(c *eng.Ctx) {
 		r5.Check(okEmpty, f.Key+" empty", f.Decl.Pos(), "(nil, nil) only for an empty file", "a nil response without error is returned for something other than an empty file")
 	}
 	if f := r5.NeedFunc(pkgAdm + ".FromReader"); f != nil {
-		checkErrSites(r5, f, func(o types.Object) bool { return o.Name() == "Decode" }, nil, nil)
+		checkErrSites(r5, f, func(o types.Object) bool { return nameOf(o) == "Decode" }, nil, nil)
 	}
 
 	// ---- R6 registry inserts
@@ -408,7 +408,7 @@ func runC14R2(c *eng.Ctx, r *eng.RuleCtx) {
 						okVar = eng.SelObj(info, as.Lhs[1])
 						or := p.Origins(f, ta.X, 0)
 						for o := range or.Objs {
-							if o.Name() == "GetProp" {
+							if nameOf(o) == "GetProp" {
 								fromProp = true
 							}
 						}
@@ -455,7 +455,7 @@ func runC14R2(c *eng.Ctx, r *eng.RuleCtx) {
 		n := 0
 		for _, gn := range hg.Nodes {
 			calls := hg.CallsAt(gn, func(o types.Object, call *ast.CallExpr) bool {
-				if o == nil || o.Name() != "SetProp" || len(call.Args) != 2 {
+				if o == nil || nameOf(o) != "SetProp" || len(call.Args) != 2 {
 					return false
 				}
 				s, isS := eng.ConstStr(hinfo, call.Args[0])
